@@ -3,6 +3,319 @@ From Coq Require Import ZArith List Bool Arith Lia.
 Import ListNotations.
 From MP Require Import Lock.
 
+(* ------------------------------------------------------------------ runs *)
+
+Lemma run_app chk cfg : forall l1 l2 s,
+  run chk cfg s (l1 ++ l2) =
+  match run chk cfg s l1 with Some s' => run chk cfg s' l2 | None => None end.
+Proof.
+  induction l1 as [|[p o] r IH]; intros l2 s; cbn [run app]; [reflexivity|].
+  destruct (step chk cfg s p o) as [[[s' ?] ?]|]; [apply IH | reflexivity].
+Qed.
+
+(* induction over reachable states *)
+Lemma run_ind chk cfg (P : state -> Prop) :
+  (forall s p o s' r e, P s -> step chk cfg s p o = Some (s', r, e) -> P s') ->
+  forall l s0 s, P s0 -> run chk cfg s0 l = Some s -> P s.
+Proof.
+  intros Hstep. induction l as [|[p o] r IH]; intros s0 s H0 Hr; cbn [run] in Hr.
+  - injection Hr as <-. exact H0.
+  - destruct (step chk cfg s0 p o) as [[[s' r'] e']|] eqn:E; [|discriminate].
+    eapply IH; [|exact Hr]. eapply Hstep; eassumption.
+Qed.
+
+Lemma reachable_ind chk cfg (P : state -> Prop) :
+  P init ->
+  (forall s p o s' r e, P s -> step chk cfg s p o = Some (s', r, e) -> P s') ->
+  forall s, reachable chk cfg s -> P s.
+Proof.
+  intros H0 Hs s [l Hl]. eapply run_ind; eassumption.
+Qed.
+
+(* ------------------------------------------------------------------ the invariant *)
+
+(* control states in which unlock() is the next thing to happen: no left-over file can exist *)
+Definition fresh_pc (c : pc) : bool :=
+  match c with Inside _ _ => true | RmFailed _ _ => true | _ => false end.
+
+(* the protocol is safe when the identity check is made or when nobody removes the lock file *)
+Definition safe (chk : bool) (cfg : pid -> pconf) : Prop := chk = true \/ keepfile cfg.
+
+Record Inv (chk : bool) (cfg : pid -> pconf) (s : state) : Prop := mk_Inv {
+  (* a process that has the flock of an inode is its owner, and conversely *)
+  iA : forall p i, holds s p i -> owner s i = Some p;
+  iA' : forall p i, owner s i = Some p -> holds s p i;
+  (* a process that has constructed its LockFile owns the inode the path names *)
+  iB : forall p k i, inside_pc (st_pc (ps s p)) = Some (k, i) -> path s k = Some i;
+  (* the left-over file and the current file of a process are different inodes *)
+  iC : forall p i, holds_pc (st_pc (ps s p)) = Some i -> st_zomb (ps s p) <> Some i;
+  iD : forall p, fresh_pc (st_pc (ps s p)) = true -> st_zomb (ps s p) = None;
+  (* inode numbers in use are below the allocation counter *)
+  iE : forall k i, path s k = Some i -> i < next s;
+  iE' : forall p i, holds s p i -> i < next s;
+  iE'' : forall p a i, st_pc (ps s p) = Opened a i -> i < next s;
+  (* a file just opened through the path is not the process's own left-over file *)
+  iO : forall p a i, st_pc (ps s p) = Opened a i -> st_zomb (ps s p) <> Some i;
+  (* a left-over file has no name *)
+  iZ : forall p z k, st_zomb (ps s p) = Some z -> path s k <> Some z;
+  iInj : forall k k' i, path s k = Some i -> path s k' = Some i -> k = k';
+  (* without the check: an opened file is still the file at its path (nobody removes) *)
+  iF : chk = false -> forall p a i, st_pc (ps s p) = Opened a i -> path s (a_k a) = Some i;
+  (* slot numbers stay inside the range of the process's lock *)
+  iG : forall p a, att_of (st_pc (ps s p)) = Some a -> a_k a < nslots (cfg p);
+  iG' : forall p k, slot_of (st_pc (ps s p)) = Some k -> k < nslots (cfg p)
+}.
+
+Lemma inv_init chk cfg : Inv chk cfg init.
+Proof.
+  constructor; unfold holds; cbn; intros; try discriminate; try (destruct H; discriminate); auto.
+Qed.
+
+Ltac brk :=
+  repeat match goal with
+  | H : context[Nat.eqb ?a ?b] |- _ => destruct (Nat.eqb_spec a b); subst
+  | |- context[Nat.eqb ?a ?b] => destruct (Nat.eqb_spec a b); subst
+  end.
+
+Ltac red_state :=
+  unfold succeed, first_try in *;
+  cbn [ps owner path next set_pc set_p set_owner set_path bump st_pc st_zomb fst snd
+       holds_pc inside_pc att_of slot_of fresh_pc a_k a_tries a_stop] in *;
+  unfold upd in *.
+
+Ltac step_inv H :=
+  unfold step in H;
+  match type of H with context[st_pc (ps ?s ?p)] => destruct (st_pc (ps s p)) eqn:Hpc end;
+  try match type of H with context[match ?o with OTime _ => _ | _ => _ end] => destruct o end;
+  cbv iota in H;
+  try discriminate H;
+  unfold succeed in H;
+  try match type of H with context[st_zomb (ps ?s ?p)] => destruct (st_zomb (ps s p)) eqn:Hz end;
+  repeat match type of H with
+  | context[match ?x with _ => _ end] => destruct x eqn:?
+  end; try discriminate H; inversion H; subst; clear H.
+
+Section Facts.
+  Context {chk : bool} {cfg : pid -> pconf} {s : state} (HI : Inv chk cfg s).
+  Lemma fA_pc p i : holds_pc (st_pc (ps s p)) = Some i -> owner s i = Some p.
+  Proof. intros H. apply (iA _ _ _ HI). left. exact H. Qed.
+  Lemma fA_z p i : st_zomb (ps s p) = Some i -> owner s i = Some p.
+  Proof. intros H. apply (iA _ _ _ HI). right. exact H. Qed.
+  Lemma fE_pc p i : holds_pc (st_pc (ps s p)) = Some i -> i < next s.
+  Proof. intros H. apply (iE' _ _ _ HI p). left. exact H. Qed.
+  Lemma fE_z p i : st_zomb (ps s p) = Some i -> i < next s.
+  Proof. intros H. apply (iE' _ _ _ HI p). right. exact H. Qed.
+  Lemma fA' p i : owner s i = Some p -> holds_pc (st_pc (ps s p)) = Some i \/ st_zomb (ps s p) = Some i.
+  Proof. apply (iA' _ _ _ HI). Qed.
+  Lemma fB_holds p k i : inside_pc (st_pc (ps s p)) = Some (k, i) -> holds_pc (st_pc (ps s p)) = Some i.
+  Proof. destruct (st_pc (ps s p)); cbn; intros H; try discriminate; injection H as <- <-; reflexivity. Qed.
+  Lemma f_owner_fresh : owner s (next s) = None.
+  Proof.
+    destruct (owner s (next s)) as [q|] eqn:E; [|reflexivity].
+    apply (iA' _ _ _ HI) in E. apply (iE' _ _ _ HI) in E. lia.
+  Qed.
+End Facts.
+
+Ltac inst HI p :=
+  pose proof (iA' _ _ _ HI p) as HA'p; pose proof (iC _ _ _ HI p) as HCp;
+  pose proof (iD _ _ _ HI p) as HDp; pose proof (iB _ _ _ HI p) as HBp;
+  pose proof (iG _ _ _ HI p) as HGp; pose proof (iG' _ _ _ HI p) as HG'p;
+  pose proof (iA _ _ _ HI p) as HAp; pose proof (iE' _ _ _ HI p) as HE'p;
+  pose proof (iZ _ _ _ HI p) as HZp;
+  unfold holds in *.
+
+Ltac rw :=
+  repeat match goal with
+  | H : st_pc (ps ?s ?p) = _ |- _ => rewrite H in *
+  | H : st_zomb (ps ?s ?p) = _ |- _ => rewrite H in *
+  end.
+
+Ltac dis :=
+  repeat match goal with
+  | H : _ \/ _ |- _ => destruct H
+  | H : Some _ = Some _ |- _ => injection H as H; try subst
+  | H : (_, _) = (_, _) |- _ => injection H as ? ?; try subst
+  | H : Opened _ _ = Opened _ _ |- _ => injection H as ? ?; try subst
+  | H : None = Some _ |- _ => discriminate H
+  | H : Some _ = None |- _ => discriminate H
+  end.
+
+Ltac sem :=
+  try match goal with
+  | |- context[is_sem ?c] => destruct (is_sem c) eqn:Hsem
+  | H : context[is_sem ?c] |- _ => destruct (is_sem c) eqn:Hsem
+  end.
+
+Ltac slots :=
+  cbn [a_k a_tries a_stop] in *; unfold nslots, is_sem in *;
+  match goal with |- context[p_kind ?c] => destruct (p_kind c) end; try discriminate; try lia;
+  try (apply Nat.ltb_lt; assumption); try (apply Nat.mod_upper_bound; lia).
+
+Ltac easy_fin HI :=
+  try solve [ eauto using (iA _ _ _ HI), (iA' _ _ _ HI), (iB _ _ _ HI), (iC _ _ _ HI), (iD _ _ _ HI), (iE _ _ _ HI),
+                (iE' _ _ _ HI), (iE'' _ _ _ HI), (iO _ _ _ HI), (iZ _ _ _ HI), (iInj _ _ _ HI), (iF _ _ _ HI), (iG _ _ _ HI), (iG' _ _ _ HI),
+                (fA_pc HI), (fA_z HI), (fE_pc HI), (fE_z HI), (fA' HI)
+            | discriminate | congruence | lia | slots ].
+
+Ltac note H := let T := type of H in lazymatch goal with | _ : T |- _ => fail | _ => pose proof H end.
+
+Ltac selfinst :=
+  try (match goal with HAp : forall i, _ \/ _ -> owner _ i = Some _ |- _ => note (HAp _ (or_introl eq_refl)) end);
+  try (match goal with HAp : forall i, _ \/ _ -> owner _ i = Some _ |- _ => note (HAp _ (or_intror eq_refl)) end);
+  try (match goal with HE'p : forall i, _ \/ _ -> i < next _ |- _ => note (HE'p _ (or_introl eq_refl)) end);
+  try (match goal with HE'p : forall i, _ \/ _ -> i < next _ |- _ => note (HE'p _ (or_intror eq_refl)) end);
+  try (match goal with HZp : forall z k, Some _ = Some z -> path _ k <> Some z |- _ => note (fun k => HZp _ k eq_refl) end);
+  try (match goal with HBp : forall k i, Some _ = Some (k, i) -> path _ k = Some i |- _ => note (HBp _ _ eq_refl) end);
+  try (match goal with HGp : forall a, Some _ = Some a -> a_k a < _ |- _ => note (HGp _ eq_refl) end);
+  try (match goal with HG'p : forall k, Some _ = Some k -> k < _ |- _ => note (HG'p _ eq_refl) end);
+  try (match goal with HCp : forall i, Some _ = Some i -> _ <> Some i |- _ => note (HCp _ eq_refl) end);
+  try (match goal with HDp : true = true -> _ |- _ => note (HDp eq_refl) end).
+
+Ltac sat HI :=
+  repeat match goal with
+  | H : inside_pc (st_pc (ps ?s ?q)) = Some (?k, ?i) |- _ =>
+      progress (try note (iB _ _ _ HI _ _ _ H); try note (fB_holds _ _ _ H))
+  | H : holds_pc (st_pc (ps ?s ?q)) = Some ?i |- _ =>
+      progress (try note (fA_pc HI _ _ H); try note (fE_pc HI _ _ H); try note (iC _ _ _ HI _ _ H))
+  | H : st_zomb (ps ?s ?q) = Some ?i |- _ =>
+      progress (try note (fA_z HI _ _ H); try note (fE_z HI _ _ H); try note (fun k => iZ _ _ _ HI _ _ k H))
+  | H : path ?s ?k = Some ?i |- _ => progress (try note (iE _ _ _ HI _ _ H))
+  | H : st_pc (ps ?s ?q) = Opened ?a ?i |- _ =>
+      progress (try note (iF _ _ _ HI eq_refl _ _ _ H); try note (iE'' _ _ _ HI _ _ _ H); try note (iO _ _ _ HI _ _ _ H))
+  | H : owner ?s ?j = Some ?p, HA'p : forall i, owner ?s i = Some ?p -> _ |- _ => progress (try note (HA'p _ H))
+  end.
+
+Ltac neq_fin := solve [let X := fresh in intro X; injection X as X; subst; lia].
+
+Ltac safe_fin :=
+  solve [ match goal with HS : safe _ ?cfg, Hr : removes (?cfg ?p) = true |- _ =>
+            destruct HS as [HS|HS]; [discriminate HS | rewrite (HS p) in Hr; discriminate Hr] end ].
+
+Lemma inv_step chk cfg s p o s' r e :
+  safe chk cfg -> Inv chk cfg s -> step chk cfg s p o = Some (s', r, e) -> Inv chk cfg s'.
+Proof.
+  intros HS HI H. step_inv H.
+  all: inst HI p; rw; red_state; selfinst.
+  all: constructor; unfold holds; intros; red_state; brk; red_state; rw; red_state.
+  all: easy_fin HI.
+  all: sem; red_state; dis.
+  all: easy_fin HI.
+  all: sat HI; dis; easy_fin HI; try neq_fin; try safe_fin.
+  all: intro; sat HI; try lia.
+  all: match goal with Hn : forall k, path ?s k <> Some ?z, He : path ?s ?k0 = Some ?z |- _ => exact (False_ind _ (Hn k0 He)) end.
+Qed.
+
+Lemma inv_run chk cfg : safe chk cfg -> forall l s0 s, Inv chk cfg s0 -> run chk cfg s0 l = Some s -> Inv chk cfg s.
+Proof.
+  intros HS l s0 s. apply run_ind. intros. eapply inv_step; eassumption.
+Qed.
+
+Lemma inv_reachable chk cfg s : safe chk cfg -> reachable chk cfg s -> Inv chk cfg s.
+Proof.
+  intros HS [l Hl]. eapply inv_run; [exact HS | apply inv_init | exact Hl].
+Qed.
+
+(* ------------------------------------------------------------------ mutual exclusion *)
+
+Lemma inside_at_pc s p k i : st_pc (ps s p) = Inside k i -> inside_pc (st_pc (ps s p)) = Some (k, i).
+Proof. intros ->. reflexivity. Qed.
+
+Lemma mutex_inv chk cfg s : Inv chk cfg s ->
+  forall p q k, inside_at s p k -> inside_at s q k -> p = q.
+Proof.
+  intros HI p q k [i Hp] [j Hq].
+  pose proof (iB _ _ _ HI _ _ _ (inside_at_pc _ _ _ _ Hp)) as Pi.
+  pose proof (iB _ _ _ HI _ _ _ (inside_at_pc _ _ _ _ Hq)) as Pj.
+  assert (i = j) by congruence. subst j.
+  assert (Op : owner s i = Some p) by (apply (fA_pc HI); rewrite Hp; reflexivity).
+  assert (Oq : owner s i = Some q) by (apply (fA_pc HI); rewrite Hq; reflexivity).
+  congruence.
+Qed.
+
+(* one lock file: whatever the release styles, with the identity check or without anybody removing *)
+Lemma mutex_general chk cfg : safe chk cfg -> forall l s, run chk cfg init l = Some s ->
+  forall p q k, inside_at s p k -> inside_at s q k -> p = q.
+Proof.
+  intros HS l s Hr. apply (mutex_inv chk cfg). apply inv_reachable; [exact HS | exists l; exact Hr].
+Qed.
+
+Lemma inside_slot_range chk cfg s : Inv chk cfg s -> forall p k, inside_at s p k -> k < nslots (cfg p).
+Proof.
+  intros HI p k [i Hp]. apply (iG' _ _ _ HI). rewrite Hp. reflexivity.
+Qed.
+
+Definition all_filelocks (cfg : pid -> pconf) : Prop := forall p, is_sem (cfg p) = false.
+
+Lemma filelock_one_slot (cfg : pid -> pconf) p : is_sem (cfg p) = false -> nslots (cfg p) = 1.
+Proof. unfold is_sem, nslots. destruct (p_kind (cfg p)); [reflexivity | discriminate]. Qed.
+
+Lemma mutex_filelock chk cfg : safe chk cfg -> all_filelocks cfg -> forall l s, run chk cfg init l = Some s ->
+  forall p q, inside s p -> inside s q -> p = q.
+Proof.
+  intros HS HF l s Hr p q [k Hp] [k' Hq].
+  assert (HI : Inv chk cfg s) by (apply inv_reachable; [exact HS | exists l; exact Hr]).
+  pose proof (inside_slot_range _ _ _ HI _ _ Hp) as Rp. pose proof (inside_slot_range _ _ _ HI _ _ Hq) as Rq.
+  rewrite (filelock_one_slot _ _ (HF p)) in Rp. rewrite (filelock_one_slot _ _ (HF q)) in Rq.
+  assert (k = 0) by lia. assert (k' = 0) by lia. subst. eapply mutex_inv; eassumption.
+Qed.
+
+Lemma mutex_keepfile_lemma : forall chk cfg l s p q,
+  keepfile cfg -> all_filelocks cfg -> run chk cfg init l = Some s -> inside s p -> inside s q -> p = q.
+Proof.
+  intros chk cfg l s p q HK HF Hr. eapply mutex_filelock; [right; exact HK | exact HF | exact Hr].
+Qed.
+
+Lemma mutex_remove_lemma : forall cfg l s p q,
+  all_filelocks cfg -> run true cfg init l = Some s -> inside s p -> inside s q -> p = q.
+Proof.
+  intros cfg l s p q HF Hr. eapply mutex_filelock; [left; reflexivity | exact HF | exact Hr].
+Qed.
+
+(* ------------------------------------------------------------------ the semaphore bound *)
+
+Definition slot_in (s : state) (p : pid) : slot :=
+  match st_pc (ps s p) with Inside k _ => k | _ => 0 end.
+
+Lemma inside_slot_in s p : inside s p -> inside_at s p (slot_in s p).
+Proof. intros [k [i H]]. exists i. unfold slot_in. rewrite H. reflexivity. Qed.
+
+Lemma NoDup_map_inj {A B} (f : A -> B) (l : list A) :
+  NoDup l -> (forall x y, In x l -> In y l -> f x = f y -> x = y) -> NoDup (map f l).
+Proof.
+  induction 1 as [|a l Hn Hnd IH]; intros Hinj; cbn [map]; constructor.
+  - intros Hin. apply in_map_iff in Hin. destruct Hin as [y [Hy Hyl]].
+    assert (y = a) by (apply Hinj; [right; exact Hyl | left; reflexivity | exact Hy]). subst. contradiction.
+  - apply IH. intros x y Hx Hy. apply Hinj; right; assumption.
+Qed.
+
+Lemma bounded_inv chk cfg s n : Inv chk cfg s -> (forall p, nslots (cfg p) <= n) ->
+  forall pids, NoDup pids -> (forall p, In p pids -> inside s p) -> length pids <= n.
+Proof.
+  intros HI Hn pids Hnd Hin.
+  assert (ND : NoDup (map (slot_in s) pids)).
+  { apply NoDup_map_inj; [exact Hnd|]. intros x y Hx Hy E.
+    pose proof (inside_slot_in _ _ (Hin _ Hx)) as Ix. pose proof (inside_slot_in _ _ (Hin _ Hy)) as Iy.
+    rewrite E in Ix. eapply mutex_inv; eassumption. }
+  assert (INC : incl (map (slot_in s) pids) (seq 0 n)).
+  { intros k Hk. apply in_map_iff in Hk. destruct Hk as [x [<- Hx]]. apply in_seq.
+    pose proof (inside_slot_range _ _ _ HI _ _ (inside_slot_in _ _ (Hin _ Hx))). specialize (Hn x). lia. }
+  pose proof (NoDup_incl_length ND INC) as L. rewrite map_length, seq_length in L. exact L.
+Qed.
+
+Lemma semaphore_bounded_lemma : forall cfg n l s pids,
+  (forall p, nslots (cfg p) <= n) -> run true cfg init l = Some s ->
+  NoDup pids -> (forall p, In p pids -> inside s p) -> length pids <= n.
+Proof.
+  intros cfg n l s pids Hn Hr. eapply bounded_inv; [|exact Hn].
+  apply inv_reachable; [left; reflexivity | exists l; exact Hr].
+Qed.
+
+Lemma mutex_per_lock_file_lemma : forall chk cfg l s p q k,
+  safe chk cfg -> run chk cfg init l = Some s -> inside_at s p k -> inside_at s q k -> p = q.
+Proof. intros chk cfg l s p q k HS Hr. exact (mutex_general chk cfg HS l s Hr p q k). Qed.
+
+(* ------------------------------------------------------------------ refutation without the check (F5) *)
+
 (* Without the identity check the F5 schedule puts processes 1 and 2 inside together. *)
 Lemma f5_two_inside_without_check :
   exists s, run false f5_cfg init f5_schedule_nocheck = Some s /\ inside_at s 1 0 /\ inside_at s 2 0.
@@ -10,4 +323,335 @@ Proof.
   destruct (run false f5_cfg init f5_schedule_nocheck) as [s|] eqn:E; [|vm_compute in E; discriminate].
   exists s. split; [reflexivity|].
   vm_compute in E. injection E as E. subst s. split; eexists; reflexivity.
+Qed.
+
+(* hence "safe" cannot be dropped from mutex_general *)
+Lemma mutex_needs_check :
+  ~ (forall chk cfg l s p q k, run chk cfg init l = Some s -> inside_at s p k -> inside_at s q k -> p = q).
+Proof.
+  intros H. destruct f5_two_inside_without_check as [s [Hr [H1 H2]]].
+  specialize (H _ _ _ _ _ _ _ Hr H1 H2). discriminate.
+Qed.
+
+(* non-vacuity: the same interleaving on the code as it is: process 2 gets in, process 1's attempt fails at the
+   identity check and it is about to close its file *)
+Example f5_schedule_with_check :
+  exists s, run true f5_cfg init f5_schedule_check = Some s /\ inside s 2 /\ ~ inside s 1 /\
+            st_pc (ps s 1) = Closing (mk_att 5 1 0) 0 true.
+Proof.
+  destruct (run true f5_cfg init f5_schedule_check) as [s|] eqn:E; [|vm_compute in E; discriminate].
+  exists s. split; [reflexivity|]. vm_compute in E. injection E as E. subst s.
+  split; [exists 0, 1; reflexivity|]. split; [|reflexivity].
+  intros [k [i H]]. discriminate H.
+Qed.
+
+(* non-vacuity for the semaphore: three users of SemLock(2); two are inside, the third has tried both files *)
+Definition sem_cfg : pid -> pconf := fun _ => mk_pconf (KSem 2) 5.
+Definition sem_schedule : list label :=
+  [ (0, OTime 0); (0, ORand 1); (0, OOpen); (0, OFlock); (0, OStat);
+    (1, OTime 0); (1, ORand 1); (1, OOpen); (1, OFlock); (1, OClose); (1, OOpen); (1, OFlock); (1, OStat);
+    (2, OTime 0); (2, ORand 0); (2, OOpen); (2, OFlock); (2, OClose); (2, OOpen); (2, OFlock); (2, OClose) ].
+
+Example sem_two_inside :
+  exists s, run true sem_cfg init sem_schedule = Some s /\ inside_at s 0 1 /\ inside_at s 1 0 /\
+            st_pc (ps s 2) = Failed 5.
+Proof.
+  destruct (run true sem_cfg init sem_schedule) as [s|] eqn:E; [|vm_compute in E; discriminate].
+  exists s. split; [reflexivity|]. vm_compute in E. injection E as E. subst s.
+  split; [exists 0; reflexivity|]. split; [exists 1; reflexivity | reflexivity].
+Qed.
+
+(* ------------------------------------------------------------------ failed attempts *)
+
+(* a refused flock: another process has an open, locked descriptor on the very inode that was opened *)
+Lemma failed_flock_inv chk cfg s p s' e : Inv chk cfg s ->
+  step chk cfg s p OFlock = Some (s', RFlock false, e) ->
+  exists a i q, st_pc (ps s p) = Opened a i /\ q <> p /\ owner s i = Some q /\ holds s q i /\
+                st_pc (ps s' p) = Closing a i false.
+Proof.
+  intros HI H. step_inv H.
+  all: exists a, i, p0.
+  all: split; [reflexivity|]; split; [|split; [exact Heqo|]; split; [apply (iA' _ _ _ HI); exact Heqo|];
+         red_state; rewrite Nat.eqb_refl; reflexivity].
+  all: intros ->; pose proof (fA' HI _ _ Heqo) as X; rewrite Hpc in X; cbn in X;
+       destruct X as [X|X]; [discriminate|]; exact (iO _ _ _ HI _ _ _ Hpc X).
+Qed.
+Lemma failed_flock_lemma : forall chk cfg l s p s' e,
+  safe chk cfg -> run chk cfg init l = Some s ->
+  step chk cfg s p OFlock = Some (s', RFlock false, e) ->
+  exists a i q, st_pc (ps s p) = Opened a i /\ q <> p /\ owner s i = Some q /\ holds s q i /\
+                st_pc (ps s' p) = Closing a i false.
+Proof.
+  intros chk cfg l s p s' e HS Hr. apply failed_flock_inv. apply inv_reachable; [exact HS | exists l; exact Hr].
+Qed.
+
+(* LockTimeout is raised only by the clock reading that follows a failed attempt, and only when that reading
+   has reached the stop time *)
+Lemma timeout_step_lemma : forall chk cfg s p o s' r,
+  step chk cfg s p o = Some (s', r, ETimeout) ->
+  exists stop t, st_pc (ps s p) = Failed stop /\ o = OTime t /\ (stop <= t)%Z /\ st_pc (ps s' p) = Idle.
+Proof.
+  intros chk cfg s p o s' r H. step_inv H. exists stop, t. 
+  split; [reflexivity|]. split; [reflexivity|]. split; [apply Z.ltb_ge; assumption|].
+  red_state. rewrite Nat.eqb_refl. reflexivity.
+Qed.
+
+(* ------------------------------------------------------------------ a released lock can be taken again *)
+
+Lemma named_file_free chk cfg s p k i : Inv chk cfg s ->
+  st_pc (ps s p) = Idle -> quiet_others s p -> path s k = Some i -> owner s i = None.
+Proof.
+  intros HI Hpc HQ Hk. destruct (owner s i) as [q|] eqn:E; [|reflexivity]. exfalso.
+  destruct (fA' HI _ _ E) as [X|X].
+  - destruct (Nat.eq_dec q p) as [->|Hn]; [rewrite Hpc in X; discriminate | rewrite (HQ _ Hn) in X; discriminate].
+  - exact (iZ _ _ _ HI _ _ k X Hk).
+Qed.
+
+Ltac stp := cbn [run_ev]; unfold step at 1; red_state; cbv [a_k a_tries a_stop]; rewrite ?Nat.eqb_refl; cbn [st_pc st_zomb].
+
+Lemma acquirable_inv cfg s p t r : Inv true cfg s ->
+  st_pc (ps s p) = Idle -> quiet_others s p -> r < nslots (cfg p) ->
+  exists s' k i,
+    run_ev true cfg s (solo p (solo_ops (cfg p) (has_zomb s p) t r)) ENone = Some (s', EAcquired k i) /\
+    st_pc (ps s' p) = Inside k i.
+Proof.
+  intros HI Hpc HQ Hr.
+  pose proof (fun i => named_file_free _ _ _ _ (if is_sem (cfg p) then r else 0) i HI Hpc HQ) as Hfree.
+  pose proof (f_owner_fresh HI) as Hfresh.
+  unfold solo_ops, solo, has_zomb.
+  destruct (is_sem (cfg p)) eqn:Hsem; destruct (st_zomb (ps s p)) as [z|] eqn:Hz; cbn [map app].
+  all: stp; rewrite Hpc, ?Hz, ?Hsem; cbn [p_timeout].
+  all: try (stp; apply Nat.ltb_lt in Hr; rewrite Hr).
+  all: stp.
+  all: match goal with |- context[match path ?s0 ?k with _ => _ end] => destruct (path s0 k) as [i|] eqn:Hk end.
+  all: stp.
+  all: try rewrite (Hfree _ eq_refl); try rewrite (Hfree _ Hk); try rewrite Hfresh.
+  all: stp.
+  all: try rewrite Hk; rewrite ?Nat.eqb_refl; rewrite ?Hz.
+  all: try stp.
+  all: do 3 eexists; (split; [reflexivity|]); red_state; rewrite ?Nat.eqb_refl; reflexivity.
+Qed.
+
+Lemma released_lock_acquirable_lemma : forall cfg l s p t r,
+  run true cfg init l = Some s ->
+  st_pc (ps s p) = Idle -> quiet_others s p -> r < nslots (cfg p) ->
+  exists s' k i,
+    run_ev true cfg s (solo p (solo_ops (cfg p) (has_zomb s p) t r)) ENone = Some (s', EAcquired k i) /\
+    st_pc (ps s' p) = Inside k i.
+Proof.
+  intros cfg l s p t r Hr. apply acquirable_inv. apply inv_reachable; [left; reflexivity | exists l; exact Hr].
+Qed.
+
+(* non-vacuity: after the F5 interleaving, once process 2 has unlocked and process 1 has given up its failed
+   attempt and sleeps, process 0 (which still has the file of its earlier unlock open) takes the lock again *)
+Example acquirable_after_f5 :
+  exists s, run true f5_cfg init (f5_schedule_check ++ [(2, ORemove); (1, OClose); (1, OTime 1)]) = Some s /\
+            st_pc (ps s 0) = Idle /\ quiet_others s 0 /\ has_zomb s 0 = false /\ has_zomb s 2 = true.
+Proof.
+  destruct (run true f5_cfg init (f5_schedule_check ++ [(2, ORemove); (1, OClose); (1, OTime 1)])) as [s|] eqn:E;
+    [|vm_compute in E; discriminate].
+  exists s. split; [reflexivity|]. vm_compute in E. injection E as E. subst s.
+  split; [reflexivity|]. split; [|split; reflexivity].
+  intros q Hq. destruct q as [|[|[|q]]]; try reflexivity.
+Qed.
+
+(* ------------------------------------------------------------------ histories *)
+
+Lemma run_snoc chk cfg l p o s s' r e :
+  run chk cfg init l = Some s -> step chk cfg s p o = Some (s', r, e) ->
+  run chk cfg init (l ++ [(p, o)]) = Some s'.
+Proof. intros Hr Hs. rewrite run_app, Hr. cbn [run]. rewrite Hs. reflexivity. Qed.
+
+Lemma run_hist_ind chk cfg (P : list label -> state -> Prop) :
+  P [] init ->
+  (forall l s p o s' r e, run chk cfg init l = Some s -> P l s ->
+     step chk cfg s p o = Some (s', r, e) -> P (l ++ [(p, o)]) s') ->
+  forall l s, run chk cfg init l = Some s -> P l s.
+Proof.
+  intros H0 HS l. induction l as [|[p o] l IH] using rev_ind; intros s Hr.
+  - injection Hr as <-. exact H0.
+  - rewrite run_app in Hr. destruct (run chk cfg init l) as [s1|] eqn:E; [|discriminate].
+    cbn [run] in Hr. destruct (step chk cfg s1 p o) as [[[s2 r] e]|] eqn:Es; [|discriminate].
+    injection Hr as <-. eapply HS; [exact E | apply IH; reflexivity | exact Es].
+Qed.
+
+(* a step of one process leaves the control state of the others alone *)
+Lemma step_other chk cfg s p o s' r e q :
+  step chk cfg s p o = Some (s', r, e) -> q <> p -> ps s' q = ps s q.
+Proof.
+  intros H Hn. step_inv H; red_state; brk; try reflexivity; contradiction.
+Qed.
+
+Lemma failed_hist chk cfg : forall l s, run chk cfg init l = Some s ->
+  forall p stop, st_pc (ps s p) = Failed stop -> after_failed_attempt chk cfg l p stop.
+Proof.
+  apply (run_hist_ind chk cfg (fun l s => forall p stop, st_pc (ps s p) = Failed stop -> after_failed_attempt chk cfg l p stop)).
+  - intros p stop H. discriminate H.
+  - intros l s p' o s' r e Hr IH Hs p stop Hf.
+    destruct (Nat.eq_dec p p') as [->|Hn].
+    + clear IH. step_inv Hs; red_state; rewrite Nat.eqb_refl in Hf; cbn [st_pc] in Hf; try discriminate Hf.
+      all: try (destruct (is_sem (cfg p')); discriminate Hf).
+      all: injection Hf as <-; exists l, [], s; do 3 eexists.
+      all: split; [reflexivity|]; split; [exact Hr|]; split; [exact Hpc|]; split; [reflexivity|].
+      all: split; [apply Nat.leb_le; assumption | intros o' []].
+    + rewrite (step_other _ _ _ _ _ _ _ _ _ Hs Hn) in Hf.
+      destruct (IH _ _ Hf) as (l1 & l2 & s1 & a & i & held & El & Hr1 & Hc & Hst & Hle & Hno).
+      exists l1, (l2 ++ [(p', o)]), s1, a, i, held.
+      split; [rewrite El, <- app_assoc; reflexivity|]. split; [exact Hr1|]. split; [exact Hc|].
+      split; [exact Hst|]. split; [exact Hle|].
+      intros o' Hin. apply in_app_or in Hin. destruct Hin as [Hin|[Hin|[]]]; [exact (Hno _ Hin)|].
+      injection Hin as E1 E2. congruence.
+Qed.
+
+(* LockTimeout: raised by a clock reading t >= stop directly after a failed attempt *)
+Lemma timeout_partial_lemma : forall chk cfg l s p o s' r,
+  run chk cfg init l = Some s -> step chk cfg s p o = Some (s', r, ETimeout) ->
+  exists stop t, o = OTime t /\ (stop <= t)%Z /\ after_failed_attempt chk cfg l p stop.
+Proof.
+  intros chk cfg l s p o s' r Hr Hs.
+  destruct (timeout_step_lemma _ _ _ _ _ _ _ Hs) as (stop & t & Hpc & -> & Hle & _).
+  exists stop, t. split; [reflexivity|]. split; [exact Hle|]. eapply failed_hist; eassumption.
+Qed.
+
+(* ------------------------------------------------------------------ failed identity check *)
+
+(* a name keeps its file unless a process that is inside through it removes it *)
+Lemma step_path_keep chk cfg s p o s' r e k i : Inv chk cfg s ->
+  step chk cfg s p o = Some (s', r, e) -> path s k = Some i ->
+  path s' k = Some i \/ (o = ORemove /\ st_pc (ps s p) = Inside k i).
+Proof.
+  intros HI H Hk. step_inv H; red_state; brk; auto; try congruence.
+  right. split; [reflexivity|].
+  assert (X : path s k0 = Some i0) by (apply (iB _ _ _ HI p); rewrite Hpc; reflexivity).
+  congruence.
+Qed.
+
+Lemma removed_under_snoc chk cfg l p a i q o :
+  removed_under chk cfg l p a i -> (q <> p \/ o <> OOpen) -> removed_under chk cfg (l ++ [(q, o)]) p a i.
+Proof.
+  intros (l1 & l2 & s1 & q0 & El & Hr & Hn & Hq & Hp & Hno) Hor.
+  exists l1, (l2 ++ [(q, o)]), s1, q0. split; [rewrite El, <- app_assoc; reflexivity|].
+  split; [exact Hr|]. split; [exact Hn|]. split; [exact Hq|]. split; [exact Hp|].
+  intros o' Hin. apply in_app_or in Hin. destruct Hin as [Hin|[Hin|[]]]; [exact (Hno _ Hin)|].
+  injection Hin as E1 E2. subst. destruct Hor as [X|X]; [contradiction | exact X].
+Qed.
+
+Lemma replaced_hist chk cfg : safe chk cfg -> forall l s, run chk cfg init l = Some s ->
+  forall p a i,
+    (in_attempt (st_pc (ps s p)) a i -> path s (a_k a) = Some i \/ removed_under chk cfg l p a i) /\
+    (st_pc (ps s p) = Closing a i true -> removed_under chk cfg l p a i).
+Proof.
+  intros HS.
+  apply (run_hist_ind chk cfg (fun l s => forall p a i,
+    (in_attempt (st_pc (ps s p)) a i -> path s (a_k a) = Some i \/ removed_under chk cfg l p a i) /\
+    (st_pc (ps s p) = Closing a i true -> removed_under chk cfg l p a i))).
+  - intros p a i. split; [intros [H|H]; discriminate H | intros H; discriminate H].
+  - intros l s p' o s' r e Hr IH Hs p a i.
+    assert (HI : Inv chk cfg s) by (apply inv_reachable; [exact HS | exists l; exact Hr]).
+    destruct (Nat.eq_dec p p') as [->|Hn].
+    + pose proof (IH p') as IHp. clear IH.
+      step_inv Hs; red_state; rewrite Nat.eqb_refl; cbn [st_pc]; unfold in_attempt in *; (split; [intros [Hc|Hc] | intros Hc]);
+        try discriminate Hc; try (destruct (is_sem (cfg p')); discriminate Hc);
+        try (destruct (nslots (cfg p') <=? a_tries a0); discriminate Hc).
+      all: injection Hc as <- <-.
+      all: try (left; first [exact Heqo | rewrite Nat.eqb_refl; reflexivity]).
+      all: destruct (proj1 (IHp a0 i0)) as [X|X]; try solve [auto].
+      all: try (left; exact X).
+      all: try (right; apply removed_under_snoc; [exact X | right; discriminate]).
+      all: try (apply removed_under_snoc; [exact X | right; discriminate]).
+      all: exfalso; rewrite X in Heqo; try discriminate Heqo; injection Heqo as <-; rewrite Nat.eqb_refl in *; discriminate.
+    + rewrite (step_other _ _ _ _ _ _ _ _ _ Hs Hn). destruct (IH p a i) as [IH1 IH2]. split.
+      * intros Hc. destruct (IH1 Hc) as [X|X].
+        -- destruct (step_path_keep _ _ _ _ _ _ _ _ _ _ HI Hs X) as [Y|[-> Y]]; [left; exact Y|].
+           right. exists l, [], s, p'. split; [reflexivity|]. split; [exact Hr|].
+           split; [intros E; apply Hn; symmetry; exact E|]. split; [exact Y|]. split; [exact Hc|].
+           intros o' [].
+        -- right. apply removed_under_snoc; [exact X | left; intros E; apply Hn; symmetry; exact E].
+      * intros Hc. apply removed_under_snoc; [exact (IH2 Hc) | left; intros E; apply Hn; symmetry; exact E].
+Qed.
+
+Lemma failed_check_lemma : forall cfg l s p a i,
+  run true cfg init l = Some s -> st_pc (ps s p) = Closing a i true ->
+  removed_under true cfg l p a i.
+Proof.
+  intros cfg l s p a i Hr Hc. exact (proj2 (replaced_hist true cfg (or_introl eq_refl) l s Hr p a i) Hc).
+Qed.
+
+(* non-vacuity: in the F5 interleaving on the code as it is, process 1 fails the identity check *)
+Example failed_check_nonvacuous :
+  exists s, run true f5_cfg init f5_schedule_check = Some s /\ st_pc (ps s 1) = Closing (mk_att 5 1 0) 0 true.
+Proof. destruct f5_schedule_with_check as [s [H1 [_ [_ H2]]]]. exists s. split; assumption. Qed.
+
+(* non-vacuity of timeout_partial: a second user of a kept lock file times out at clock 7 >= 0 + 5 *)
+Definition keep_cfg : pid -> pconf := fun _ => mk_pconf (KFile false) 5.
+Definition timeout_schedule : list label :=
+  [ (0, OTime 0); (0, OOpen); (0, OFlock); (0, OStat);
+    (1, OTime 0); (1, OOpen); (1, OFlock); (1, OClose); (1, OTime 3); (1, OSleep);
+    (1, OOpen); (1, OFlock); (1, OClose) ].
+Example timeout_nonvacuous :
+  exists s s' r, run true keep_cfg init timeout_schedule = Some s /\
+                 step true keep_cfg s 1 (OTime 7) = Some (s', r, ETimeout).
+Proof.
+  destruct (run true keep_cfg init timeout_schedule) as [s|] eqn:E; [|vm_compute in E; discriminate].
+  exists s. vm_compute in E. injection E as E. subst s. do 2 eexists. split; reflexivity.
+Qed.
+
+(* ------------------------------------------------------------------ unlock *)
+
+(* unlock() of a remove_on_unlock lock: os.remove finds the file (the OSError branch is dead as long as every
+   user of the path goes through FileLock), and the file it removes is the one the process has locked *)
+Lemma unlock_remove_lemma : forall cfg l s p s' r e,
+  run true cfg init l = Some s -> step true cfg s p ORemove = Some (s', r, e) ->
+  exists k i, st_pc (ps s p) = Inside k i /\ path s k = Some i /\ owner s i = Some p /\
+              r = RRemove true /\ path s' k = None /\ st_pc (ps s' p) = Idle.
+Proof.
+  intros cfg l s p s' r e Hr H.
+  assert (HI : Inv true cfg s) by (apply inv_reachable; [left; reflexivity | exists l; exact Hr]).
+  step_inv H.
+  - exists k, i. assert (X : path s k = Some i) by (apply (iB _ _ _ HI p); rewrite Hpc; reflexivity).
+    split; [reflexivity|]. split; [exact X|]. split; [apply (fA_pc HI); rewrite Hpc; reflexivity|].
+    split; [reflexivity|]. red_state. rewrite !Nat.eqb_refl. split; reflexivity.
+  - exfalso. assert (X : path s k = Some i) by (apply (iB _ _ _ HI p); rewrite Hpc; reflexivity). congruence.
+Qed.
+
+(* after unlock() (either style) followed, for remove_on_unlock, by the drop of the LockFile, the process holds
+   nothing: stated as the state-level fact that an idle process without left-over file owns no inode *)
+Lemma idle_owns_nothing_lemma : forall chk cfg l s p i,
+  safe chk cfg -> run chk cfg init l = Some s ->
+  st_pc (ps s p) = Idle -> st_zomb (ps s p) = None -> owner s i <> Some p.
+Proof.
+  intros chk cfg l s p i HS Hr Hpc Hz E.
+  assert (HI : Inv chk cfg s) by (apply inv_reachable; [exact HS | exists l; exact Hr]).
+  destruct (fA' HI _ _ E) as [X|X]; [rewrite Hpc in X; discriminate | rewrite Hz in X; discriminate].
+Qed.
+
+(* ------------------------------------------------------------------ SemLock rotation *)
+
+(* the slot rotation of SemLock._try_lock, i = (i+1) % n: j rotations from the random start r *)
+Lemma rotation_iter n r j : r < n -> Nat.iter j (fun x => S x mod n) r = (r + j) mod n.
+Proof.
+  intros Hr. induction j as [|j IH].
+  - cbn [Nat.iter nat_rect]. rewrite Nat.add_0_r. symmetry. apply Nat.mod_small. exact Hr.
+  - change (S (Nat.iter j (fun x => S x mod n) r) mod n = (r + S j) mod n).
+    rewrite IH. replace (S ((r + j) mod n)) with (1 + (r + j) mod n) by reflexivity.
+    rewrite Nat.add_mod_idemp_r by lia. f_equal. lia.
+Qed.
+
+(* whatever the random start, the n attempts of one _try_lock call visit every one of the n lock files *)
+Lemma sem_rotation_lemma : forall n r k, r < n -> k < n ->
+  exists j, j < n /\ Nat.iter j (fun x => S x mod n) r = k.
+Proof.
+  intros n r k Hr Hk. exists ((k + n - r) mod n). split; [apply Nat.mod_upper_bound; lia|].
+  rewrite rotation_iter by exact Hr. rewrite Nat.add_mod_idemp_r by lia.
+  replace (r + (k + n - r)) with (k + 1 * n) by lia. rewrite Nat.mod_add by lia. apply Nat.mod_small. exact Hk.
+Qed.
+
+(* non-vacuity of unlock_remove_lemma: the owner of a fresh remove_on_unlock lock unlocks *)
+Example unlock_remove_nonvacuous :
+  exists s s' r e, run true f5_cfg init [(0, OTime 0); (0, OOpen); (0, OFlock); (0, OStat)] = Some s /\
+                   step true f5_cfg s 0 ORemove = Some (s', r, e).
+Proof.
+  destruct (run true f5_cfg init [(0, OTime 0); (0, OOpen); (0, OFlock); (0, OStat)]) as [s|] eqn:E;
+    [|vm_compute in E; discriminate].
+  exists s. vm_compute in E. injection E as E. subst s. do 3 eexists. split; reflexivity.
 Qed.
